@@ -78,7 +78,7 @@ def gen_sources(ctx, rng):
 def run_shard(ctx):
     rng = ctx.rng
     thorough = ctx.tier == "thorough"
-    for j in range(ctx.budget(220, 10000)):
+    for j in range(ctx.budget(220, 4000)):
         gen, ddl, ctor = gen_sources(ctx, rng)
         for mode in MODES:
             if thorough:
